@@ -5,6 +5,7 @@ import (
 	"context"
 	"errors"
 	"fmt"
+	"strings"
 	"sync"
 	"sync/atomic"
 	"time"
@@ -21,7 +22,7 @@ func init() {
 	fw.Register(&fw.Check{
 		ID:    "C07",
 		Level: "fault_enumeration",
-		Rule: "(gate) COMPLETE product of 7 not-selected situations {never-opened, closed, connecting, connected-not-selected, deselected, between-generations, after-separate} x 8 data-send entry points " +
+		Rule: "(gate) COMPLETE product of 9 not-selected situations {never-opened, closed, connecting, connected-not-selected, deselected, between-generations, after-separate, and the two live-socket ones again after an orphan Select.rsp(0)} x 8 data-send entry points " +
 			"{SendDataMessage W/!W, SendSECS2Message W/!W, SendDataMessageAsync, ReplyDataMessage, ForwardDataMessage, ForwardDataMessageAsync} x role {active, passive}, repeated with/without supervisor-step delays, " +
 			"plus inbound data in the two situations with a live socket; (race) concurrent senders while the peer toggles Deselect/Select and the write-lock seam waits for a deselect, checked by conservation " +
 			"(calls = frames at peer + counted drops + definite errors, one drop per refused call, no token of a refused call at the peer); (pipeline) Select.req+k data (passive) / Select.rsp+k data (active) " +
@@ -52,7 +53,12 @@ func init() {
 	})
 }
 
-var c07Situations = []string{"never-opened", "closed", "connecting", "connected-not-selected", "deselected", "between-generations", "after-separate"}
+var c07Situations = []string{"never-opened", "closed", "connecting", "connected-not-selected", "deselected", "between-generations", "after-separate",
+	// the same two live-socket situations after the peer has sent a Select.rsp(status 0) that answers no open Select
+	// transaction: it is rejected (reason 3) and selects nothing
+	"connected-not-selected" + c07OrphanRsp, "deselected" + c07OrphanRsp}
+
+const c07OrphanRsp = "+orphan-select-rsp"
 
 var c07Calls = []string{"SendDataMessage-W", "SendDataMessage", "SendSECS2Message-W", "SendSECS2Message", "SendDataMessageAsync", "ReplyDataMessage", "ForwardDataMessage", "ForwardDataMessageAsync"}
 
@@ -163,7 +169,8 @@ func c07GateOne(env *fw.Env, cs c07Case) {
 	wantErr := hsms.ErrNotSelectedState
 	wantDrop := uint64(1)
 	fail := func(key, msg string) { env.Violate(key, msg, cs) }
-	switch cs.Situation {
+	sit, orphan := strings.CutSuffix(cs.Situation, c07OrphanRsp)
+	switch sit {
 	case "never-opened":
 		wantErr, wantDrop = hsms.ErrNotOpen, 0
 	case "closed":
@@ -243,6 +250,26 @@ func c07GateOne(env *fw.Env, cs c07Case) {
 		pc.Close()
 		pc = nil
 	}
+	if orphan && pc != nil {
+		sys := uint32(0x0BADBEEF)
+		if sit == "deselected" { // replay the Select.rsp of the select that was completed earlier
+			for _, ev := range pc.Log() {
+				if ev.Frame.PType == 0 && ev.Frame.SType == peer.STSelectReq {
+					sys = ev.Frame.Sys
+				}
+			}
+		}
+		_ = pc.Send(peer.SelectRsp(0xFFFF, 0, sys))
+		if _, err := pc.Barrier(10 * time.Second); err != nil {
+			fail("control-traffic-affected", fmt.Sprintf("Linktest barrier after an orphan Select.rsp in situation %q failed: %v", cs.Situation, err))
+			return
+		}
+		env.Event("orphan_select_rsp_sent_while_not_selected", 1)
+		if st := rg.Conn.State(); st != hsms.NotSelectedState {
+			fail("orphan-select-rsp-changed-state", fmt.Sprintf("a Select.rsp(0) that answers no open Select transaction (sys %08x) moved State() from NotSelected to %v", sys, st))
+			return
+		}
+	}
 
 	mt := rg.Conn.Metrics()
 	logBefore := 0
@@ -269,7 +296,7 @@ func c07GateOne(env *fw.Env, cs c07Case) {
 			env.Event("gate_refused_not_open", 1)
 		}
 	}
-	if mt.DataMsgSendCount() != 0 && cs.Situation != "closed" && cs.Situation != "between-generations" && cs.Situation != "after-separate" && cs.Situation != "deselected" {
+	if mt.DataMsgSendCount() != 0 && sit != "closed" && sit != "between-generations" && sit != "after-separate" && sit != "deselected" {
 		fail("gate-send-counter-moved", fmt.Sprintf("DataMsgSendCount()=%d although every call was refused", mt.DataMsgSendCount()))
 	}
 	if pc == nil {
